@@ -99,6 +99,11 @@ def main():
             ctx.theorems = re.findall(r"^\s*(?:Theorem|Corollary)\s+([A-Za-z0-9_']+)", src, re.M)
             ctx.obligations = len(ctx.theorems)
             ctx.discharged = 0
+        if coq_ok and args.tier == "thorough":
+            ok, chk_axioms, chk_log = core.coqchk(prop)
+            ctx.notes.append(f"coqchk -o: {'ok' if ok else 'FAILED'}; axioms: {chk_axioms or 'none'}")
+            if not ok:
+                ctx.broken_obligation("coqchk", chk_log)
         hits = core.grep_gate(core.all_v_files())
         if hits:
             ctx.broken_obligation("grep-gate", hits[:10])
